@@ -15,11 +15,14 @@ From Verif Require Import Base.Prelude Base.Str Base.Float Base.GoVal
 Open Scope string_scope.
 
 Definition c12_call_val (op : sexp) : option gval :=
-  match op with Ls [At _; vx] => gval_of DEPTH vx | _ => None end.
+  match op with Ls [At k; vx] => if String.eqb k "cs" then None else gval_of DEPTH vx | _ => None end.
 
+(* (cs SCHEMA2): ValidateCompatibility with a schema as argument; the verdict is C15's (Schema/Compat.v), here the
+   outcome class is projected to `t` and only the purity flags are predicted *)
 Definition run_c12_call (e : env) (s : schema) (op : sexp) : sexp :=
   match op with
   | Ls [At k; vx] =>
+      if String.eqb k "cs" then Ls [At "t"; At "same"; At "kept"] else
       match gval_of DEPTH vx with
       | Some v =>
           let cls := if String.eqb k "u" then s_class (m_unser FUEL e s v)
